@@ -67,21 +67,21 @@ def gen_scenario(rng, impl):
 
 def cases(seed, tier):
     rng = random.Random('c13-%s' % seed)
-    n = 40 if tier == 'quick' else 400
+    n = 40 if tier == 'quick' else 120
     out = []
     for i in range(n):
         prng = random.Random(rng.getrandbits(64))
         impl = 'default' if i % 4 != 3 else 'legacy'
         sc = gen_scenario(prng, impl)
         out.append({'scenario': sc,
-                    'dfs': (40 if tier == 'quick' else 400) if i % 2 == 0
+                    'dfs': (40 if tier == 'quick' else 200) if i % 2 == 0
                     else 0,
-                    'random': 6 if tier == 'quick' else 30,
-                    'crash_schedules': 2 if tier == 'quick' else 6,
-                    'max_crash_points': 60 if tier == 'quick' else 400,
+                    'random': 6 if tier == 'quick' else 20,
+                    'crash_schedules': 2 if tier == 'quick' else 3,
+                    'max_crash_points': 60 if tier == 'quick' else 150,
                     'pseed': prng.randint(0, 10 ** 6)})
     for i in range(32 if tier == 'quick' else 128):
-        out.append({'thread': 120 if tier == 'quick' else 1200,
+        out.append({'thread': 120 if tier == 'quick' else 800,
                     'pseed': rng.getrandbits(32)})
     return out
 
